@@ -121,6 +121,8 @@ static void c19_vec(const slu_vt *vt, void *v, long idx, uint64_t *r, zq *out)
 {
     double re = (double)((int)(((*r = *r * 6364136223846793005ull + 1442695040888963407ull) >> 40) % 2001) - 1000) / 512.0;
     double im = vt->is_complex ? (double)((int)(((*r = *r * 6364136223846793005ull + 1442695040888963407ull) >> 40) % 2001) - 1000) / 512.0 : 0;
+    /* one entry in four is exactly zero (the kernels skip zero entries of x: the skip must not disturb the indexing) */
+    if ((((*r = *r * 6364136223846793005ull + 1442695040888963407ull) >> 40) & 3) == 0) { re = 0; im = 0; }
     el_set(vt, v, idx, re, im); el_get(vt, v, idx, &out->re, &out->im);
 }
 
